@@ -6,7 +6,7 @@ use crate::prng::Rng;
 use crate::simenv_case::{Case, FileMode};
 use crate::workload::{gen_cfg, gen_set, PROFILES};
 
-pub const PLANNED_PATH: &str = "/nonexistent-simenv/inputs/cases.txt";
+pub use crate::simenv_case::PLANNED_PATH;
 
 /// CLI spelling of a configuration: every flag short or long, in a shuffled order.
 pub fn flags_for(cfg: &Cfg, rng: &mut Rng) -> Vec<String> {
@@ -152,6 +152,9 @@ pub fn corpus() -> Vec<(String, Vec<String>)> {
         ("whitespace".into(), s(&["  lead", "trail  ", "\t"])),
         ("dashes".into(), s(&["-dash", "--x", "-"])),
         ("single".into(), s(&["a"])),
+        ("punctuation".into(), s(&["1,5", "2,5", "a;b", "x:y", "k=v", "a|b", ",", "a, b"])),
+        // only representable on the argument channel: a line feed inside a test case, a test case that ends in one
+        ("newline-in-arg".into(), s(&["a\nb", "c\n", "\n"])),
         ("blank-only".into(), s(&[""])),
         ("long-line".into(), vec!["ab".repeat(150), "c".into()]),
         // more than one 8 KiB buffer of input, but cheap to build: 1300 lines, 3 distinct
@@ -244,7 +247,7 @@ pub fn make_probe_case(content: &[u8], cfg: &Cfg, rng: &mut Rng) -> Case {
     }
 }
 
-pub const HARD_READ_ERRNOS: &[i64] = &[5, 21, 12, 116]; // EIO EISDIR ENOMEM ESTALE
+pub const HARD_READ_ERRNOS: &[i64] = &[5, 21, 12, 116, 104, 32, 103, 110, 107]; // EIO EISDIR ENOMEM ESTALE ECONNRESET EPIPE ECONNABORTED ETIMEDOUT ENOTCONN
 pub const HARD_OPEN_ERRNOS: &[i64] = &[2, 13, 24, 40, 36, 20, 5]; // ENOENT EACCES EMFILE ELOOP ENAMETOOLONG ENOTDIR EIO
 
 /// The call classes on which input arrives for a channel.
